@@ -57,3 +57,25 @@ package xmaps
 //@   loop 0: invariant forall k T {has(result, k)} :: has(result, k) <==> (visited0[k] && (b == nil || !has(b, k)))
 //@   ensures result != nil && fresh(result)
 //@   ensures forall k T {has(result, k)} :: has(result, k) <==> (a != nil && has(a, k) && (b == nil || !has(b, k)))
+
+//@ func Union
+//@   props C19
+//@   loop 0: invariant 0 <= size
+//@   loop 1: invariant out != nil && fresh(out) && (forall t int {sets[t]} :: 0 <= t && t < len(sets) ==> sets[t] != out)
+//@   loop 1: invariant forall k T {has(out, k)} :: has(out, k) <==> (exists t int :: 0 <= t && t < idx1 && sets[t] != nil && has(sets[t], k))
+//@   loop 2: invariant out != nil && fresh(out) && (forall t int {sets[t]} :: 0 <= t && t < len(sets) ==> sets[t] != out)
+//@   loop 2: invariant forall k T {has(out, k)} :: has(out, k) <==> ((exists t int :: 0 <= t && t < idx1 && sets[t] != nil && has(sets[t], k)) || visited2[k])
+//@   ensures result != nil && fresh(result)
+//@   ensures forall t int, k T {has(sets[t], k)} :: 0 <= t && t < len(sets) && sets[t] != nil && has(sets[t], k) ==> has(result, k)
+//@   ensures forall k T {has(result, k)} :: has(result, k) ==> (exists t int :: 0 <= t && t < len(sets) && sets[t] != nil && has(sets[t], k))
+
+//@ func ReverseSingle
+//@   props C19
+//@   loop 0: invariant result != nil && fresh(result) && result != m
+//@   loop 0: invariant forall v V {has(result, v)} :: has(result, v) ==> visited0[result[v]] && m[result[v]] == v
+//@   loop 0: invariant forall k K {visited0[k]} :: visited0[k] ==> has(result, m[k])
+//@   loop 0: invariant allOk <==> (forall k1 K, k2 K {visited0[k1], visited0[k2]} :: visited0[k1] && visited0[k2] && k1 != k2 ==> m[k1] != m[k2])
+//@   ensures result0 != nil && fresh(result0)
+//@   ensures forall k K {has(m, k)} :: m != nil && has(m, k) ==> has(result0, m[k])
+//@   ensures forall v V {has(result0, v)} :: has(result0, v) ==> m != nil && has(m, result0[v]) && m[result0[v]] == v
+//@   ensures result1 <==> (forall k1 K, k2 K {has(m, k1), has(m, k2)} :: m != nil && has(m, k1) && has(m, k2) && k1 != k2 ==> m[k1] != m[k2])
